@@ -6,6 +6,14 @@ Tie: core + mechanism correspondence on annotations with wrapper chains (<= 3) a
 mapping value / tuple member / union member / class field, string and ForwardRef references from the defining
 module (incl. nested call depth) and with a module-qualified name.
 Oracle: routine(W(T)) vs routine(T) on the input pool, on the implementation.
+Round 3 (helpers c11_fields.py, c11_modules.py; all three are correspondence streams AND oracle streams):
+  * class fields: shape (first visit / revisit on another path / revisit closing a cycle) x position x wrapper chain,
+    class with W(T) on the member vs its twin with T;
+  * ForwardRef(module=a module that merely imports the name) at the root and at every nested position; string /
+    ForwardRef members and foreign-module wrappers in a class of the importing module (oracle only);
+  * histories: compound / bare / dotted string references issued from 3 synthesised modules within one process, no
+    cache cleared in between, from call depth 0-3, a closure and an importing module; with names unique per module
+    and with the same names bound in every module.
 """
 from __future__ import annotations
 
@@ -14,14 +22,18 @@ import json
 import random
 import warnings
 
+import c11_fields
+import c11_modules
 import coregen
 import coremodel
 import coreprop
 import impl
 import lib
+import refstie
 import universe
 
 COQ_TARGETS = ["theories/Props/C11.vo", "theories/Model/BuildTables.vo", "theories/Model/CoreTables.vo"]
+COQ_TARGETS = COQ_TARGETS + [t for t in refstie.COQ_TARGETS if t not in COQ_TARGETS]
 THEOREMS = ["C11_root_transparent_unm", "C11_root_transparent_mar", "C11_nested_transparent_unm",
             "C11_nested_transparent_mar", "C11_routes_transparent"]
 
@@ -31,7 +43,8 @@ def prove(run: lib.Run):
     run.assumptions += [
         "C11: module discovery of bare string references (frames.extract / getcaller) is interpreter behaviour: "
         "modelled as 'the reference evaluates to the named object', exercised by the tie from the defining module, "
-        "at nested call depths and with module-qualified names",
+        "at nested call depths, from a closure, from a module that imports the names, with module-qualified names, "
+        "and in interleaved histories over several modules without cache clearing (distinct and clashing names)",
         "C11: wrappers never wrap None directly (NewType('N', None) cannot be built; an alias of None is not treated "
         "as optional by typing)",
     ]
@@ -123,8 +136,17 @@ def build_groups(run):
             roots.append(("ref", n, "fwd")); meta.append(("ref-fwd", "wrapped", len(roots) - 2))
             roots.append(("name", n)); meta.append(("ref", "plain", len(roots)))
             roots.append(("aliasstr", next(wid), n)); meta.append(("alias-str", "wrapped", len(roots) - 2))
+        # round 3: ForwardRef('N', module=M) where M is not the module that defines N but one that imports it,
+        # at the root and at every nested position (the reference object is evaluated in the importing module below)
+        foreign = []
+        for n in classes[:1]:
+            for pos, tag in FOREIGN_POSITIONS:
+                roots.append(foreign_at(pos, ("name", n))); meta.append((tag, "plain", len(roots)))
+                roots.append(foreign_at(pos, ("ref", n, "fwd"))); meta.append((tag, "wrapped", len(roots) - 2))
+                foreign.append(len(roots) - 1)
         try:
             g = coremodel.Group(env, roots, coreprop.suppressed())
+            c11_modules.attach_importer(g, foreign)
         except Exception as e:
             run.notes.append(f"group materialisation failed: {e!r}")
             continue
@@ -148,7 +170,20 @@ def build_groups(run):
                 pairs.append({"group": g, "plain": plain, "wrapped": wrapped, "tag": meta[wrapped][0], "value": v,
                               "m": (wire, wire_w), "u": obs})
         groups.append(g)
-    return groups, pairs
+    # round 3: wrapper chains on class fields whose target is a first visit / a revisit / closes a cycle
+    fg, fp = c11_fields.build(run.seed, run.tier == "thorough", coreprop.suppressed(), run.notes)
+    # round 3: compound string references from several modules within one process, no cache cleared in between
+    hg, hist = c11_modules.build(run.seed, run.tier == "thorough", coreprop.suppressed(), run.notes)
+    run._c11_hist = hist
+    return groups + fg + hg, pairs + fp
+
+
+FOREIGN_POSITIONS = [("root", "foreign-ref-root"), ("list", "foreign-ref-seq-arg"), ("dict", "foreign-ref-map-value"),
+                     ("tuple", "foreign-ref-tuple-member"), ("opt", "foreign-ref-union-member")]
+
+
+def foreign_at(pos, t):
+    return t if pos == "root" else c11_fields.at(pos, t)
 
 
 def correspond(run: lib.Run):
@@ -156,11 +191,11 @@ def correspond(run: lib.Run):
     run._c11 = (groups, pairs)
     problems = []
     for g in groups:
-        for t in g.pytys:
+        for t in getattr(g, "order_types", g.pytys):
             g.collect_orders(t)
         problems += g.order_problems
     run.oblige("tie:every observed graph node has a model annotation", not problems, "; ".join(problems[:3]))
-    bs, bm, ba = coremodel.evaluate_groups_mech(run, groups, "c11", per_file=8)
+    bs, bm, ba = coremodel.evaluate_groups_mech(run, groups, "c11", per_file=5)
     ncases = sum(len(g.cases) for g in groups)
     distinct = len({(g.env["module"], c[0], c[1], c[2]) for g in groups for c in g.cases})
     tags = {}
@@ -173,6 +208,8 @@ def correspond(run: lib.Run):
     run.record_corr("mechanism-vs-reference-semantics", ncases, [g.cases[i][4] for g, i in ba], distinct, dist)
     if groups and groups[0].cases:
         run.samples.append(groups[0].cases[1][4])
+    # reference resolution (frames, module discovery, string-keyed caches): model + histories (Props/C11Refs.v)
+    lib.run_tie(run, refstie)
 
 
 def same_outcome(a, b):
@@ -285,44 +322,88 @@ def search(run: lib.Run, broken):
     if groups is None:
         groups, pairs = build_groups(run)
     fails, stats = [], {"evaluations": 0, "nontrivial": 0}
+    kinds = {}
     for p in pairs:
         g = p["group"]
-        base = {"tag": p["tag"], "plain_type": repr(g.pytys[p["plain"]]), "wrapped_type": repr(g.pytys[p["wrapped"]]),
-                "module_source": g.src, "ref_depth": getattr(g, "ref_depth", 0),
-                "env": {"module": g.env["module"], "defs": {str(k): v for k, v in g.env["defs"].items()}},
-                "plain_desc": g.roots[p["plain"]], "wrapped_desc": g.roots[p["wrapped"]]}
+        kinds[p["tag"]] = kinds.get(p["tag"], 0) + 1
+        if "field" in p:
+            f = p["field"]
+            base = {"tag": p["tag"], "field": f, "plain_type": f"class {f['root']} of shape {f['shape']} with the plain member",
+                    "wrapped_type": f"class {f['root']} of shape {f['shape']}: member {f['chain_label']} at position "
+                                    f"{f['pos']} ({f['flavour']}, {f['visit']})"}
+        else:
+            base = {"tag": p["tag"], "plain_type": repr(g.pytys[p["plain"]]), "wrapped_type": repr(g.pytys[p["wrapped"]]),
+                    "module_source": g.src, "ref_depth": getattr(g, "ref_depth", 0),
+                    "env": {"module": g.env["module"], "defs": {str(k): v for k, v in g.env["defs"].items()}},
+                    "plain_desc": g.roots[p["plain"]], "wrapped_desc": g.roots[p["wrapped"]],
+                    "foreign": p["wrapped"] in getattr(g, "foreign", ())}
         stats["evaluations"] += 1
         if not same_outcome(*p["m"]):
-            fails.append(dict(base, symptom="marshaller of the wrapped annotation behaves differently",
+            fails.append(dict(base, symptom="marshaller of the wrapped annotation behaves differently", input_spec=["valid"],
                               input=repr(p["value"])[:3000], got=repr(p["m"][1])[:300], expected=repr(p["m"][0])[:300],
                               key=json.dumps(["C11-m", p["tag"], base["wrapped_type"][:120]])))
         for tag, x, a, b in p["u"]:
             stats["evaluations"] += 1
             stats["nontrivial"] += a[0] == "ok"
             if not same_outcome(a, b):
+                xr = (repr(p["value"]) if x[0] == "valid" else x[2]) if "field" in p else repr(x)
                 fails.append(dict(base, symptom="unmarshaller of the wrapped annotation behaves differently",
-                                  input=repr(x)[:3000], got=repr(b[1])[:300], expected=repr(a[1])[:300],
-                                  key=json.dumps(["C11-u", p["tag"], base["wrapped_type"][:120], repr(x)[:80]])))
+                                  input=xr[:3000], got=repr(b[1])[:300], expected=repr(a[1])[:300],
+                                  input_spec=list(x[:2]) if "field" in p else None,
+                                  key=json.dumps(["C11-u", p["tag"], base["wrapped_type"][:120], xr[:80]])))
+    # histories: every step must behave like the routine of the annotation the text evaluates to
+    hist = getattr(run, "_c11_hist", [])
+    callers = {}
+    first = {}
+    for si, (hi, g, ri, caller, direction, x, obs, exp) in enumerate(hist):
+        stats["evaluations"] += 1
+        stats["nontrivial"] += exp[0] == "ok"
+        callers[caller] = callers.get(caller, 0) + 1
+        first.setdefault(hi, si)
+        if not same_outcome(exp, obs):
+            fails.append({"symptom": "a string reference issued after other modules' references behaves differently from "
+                                     "the annotation it evaluates to in the issuing module", "tag": "history",
+                          "history": hi, "step": si - first[hi], "seed": run.seed, "wrapped_type": repr(g.pytys[ri]),
+                          "plain_type": repr(g.order_types[ri]), "caller": caller, "direction": direction,
+                          "input": repr(x)[:3000], "got": repr(obs[1])[:300], "expected": repr(exp[1])[:300],
+                          "issued_before": [[h[1].env["module"], h[1].pytys[h[2]], h[3], h[4]]
+                                            for h in hist[first[hi]:si]][:40],
+                          "key": json.dumps(["C11-history", hi, si - first[hi]])})
     qualified_refs(fails, stats)
     codec_chains(fails, stats)
+    c11_modules.foreign_members(fails, stats)
     run.search_stats["oracle"] = {
         "evaluations": stats["evaluations"], "distinct_nontrivial": stats["nontrivial"], "pairs": len(pairs),
+        "pairs_by_tag": kinds, "history_steps": len(hist), "history_callers": callers,
         "failures": len(fails),
         "rule": "for each base annotation T and each wrapped variant W(T) (chains <= 3 of NewType / TypeAliasType / "
                 "Final / ClassVar at root, collection argument, mapping value, tuple member, union member; string, "
                 "ForwardRef and string-alias references to classes from the defining module at call depth 0-2; "
-                "module-qualified strings from another module) marshal and unmarshal outcomes (value with classes, "
+                "module-qualified strings from another module; ForwardRef(module=an importing module) at the root and "
+                "nested) marshal and unmarshal outcomes (value with classes, "
                 "or exception kind) are compared on valid values, wire forms, JSON/literal text, corrupted wires and "
-                "unrelated objects; non-trivial = the plain routine returned a value",
+                "unrelated objects; non-trivial = the plain routine returned a value.  Class fields: every shape "
+                "(first visit / revisit on another path / cycle) x position x chain, class with W(T) on the member vs "
+                "the twin class with T, modulo the identity of the enclosing classes.  Histories: compound / bare / "
+                "dotted string references from 3 modules with distinct names, interleaved, no cache cleared, issued at "
+                "depth 0-3, from a closure and from an importing module, vs the routine of the evaluated annotation",
     }
     best = {}
     for f in fails:
         k = (f["symptom"], f.get("tag"))
-        size = len(f.get("input", "")) + len(f.get("wrapped_type", ""))
+        size = len(f.get("input", "")) + len(f.get("wrapped_type", "")) + 1000 * f.get("step", 0)
         if k not in best or size < best[k][0]:
             best[k] = (size, f)
     coreprop.close(groups)
-    return [v[1] for v in best.values()]
+    out = [v[1] for v in best.values()]
+    try:
+        for f in refstie.search(run):
+            f.setdefault("key", "refs|" + str(f.get("kind")) + "|" + str(f.get("cause")))
+            out.append(f)
+    except Exception as ex:      # the oracle of the tie must not take the property's own oracle down
+        run.notes.append(f"refstie.search failed: {ex!r}")
+        run.oblige("tie:refstie.search ran to completion", False, repr(ex)[:400])
+    return out
 
 
 def _tup(x):
@@ -332,11 +413,25 @@ def _tup(x):
 
 
 def replay(payload):
+    if str(payload.get("kind", "")).startswith("refs-"):
+        return refstie.replay(payload)
     """rebuild the module, then compare the routines of the plain and of the wrapped annotation on the input"""
     if payload.get("tag") == "codec-chain":
         fails, stats = [], {"evaluations": 0, "nontrivial": 0}
         codec_chains(fails, stats)
         return {"fails": bool(fails), "failures": [{k: v for k, v in f.items() if k != "module_source"} for f in fails[:5]]}
+    if payload.get("tag") == "history":
+        obs, exp, text, caller = c11_modules.replay_history(payload["seed"], payload["history"], payload["step"],
+                                                            coreprop.suppressed())
+        return {"fails": not same_outcome(exp, obs), "reference": text, "caller": caller,
+                "observed": repr(obs)[:300], "expected": repr(exp)[:300]}
+    if payload.get("tag") == "foreign-member":
+        fails, stats = [], {"evaluations": 0, "nontrivial": 0}
+        c11_modules.foreign_members(fails, stats, only=payload["member"])
+        return {"fails": bool(fails), "failures": fails[:3]}
+    if "field" in payload:
+        which = "m" if "marshaller" in payload.get("symptom", "") else "u"
+        return c11_fields.replay_field(payload["field"], which, payload.get("input_spec") or ["valid"], coreprop.suppressed())
     if "env" not in payload or "plain_desc" not in payload:
         return {"fails": False, "note": "replay needs env + plain_desc + wrapped_desc (see module_source for a manual replay)"}
     env = {"module": payload["env"]["module"] + "_replay",
@@ -346,6 +441,8 @@ def replay(payload):
     g.ref_depth = payload.get("ref_depth", 0)
     if roots[1][0] == "ref" and roots[1][2] == "str":
         g.pytys[1] = universe.cname(roots[1][1])
+    if payload.get("foreign"):
+        c11_modules.attach_importer(g, [1])
     try:
         import re
         src = re.sub(r"<(\w+)\.(\w+): [^>]*>", r"\1.\2", payload["input"])
@@ -364,9 +461,13 @@ def replay(payload):
 
 
 def reproduces(entry):
+    if str(entry.get("replay", {}).get("kind", "")).startswith("refs-"):
+        return refstie.reproduces(entry)
     return replay(entry["replay"])["fails"]
 
 
 def matches(entry, failure):
+    if str(failure.get("kind", "")).startswith("refs-") or str(entry.get("replay", {}).get("kind", "")).startswith("refs-"):
+        return str(failure.get("kind", "")).startswith("refs-") and refstie.matches(entry, failure)
     m = entry.get("matches", {})
     return all(str(m[k]) in str(failure.get(k, "")) for k in m)
